@@ -10,7 +10,14 @@ def run(chk):
                 "randomisation; invariants Sound and Complete. Replay: every emitted case is forged for real with the 1024-bit private keys (exponent classes mapped to "
                 "the real interval: its exact ends, nearest primes and composites on both sides, a 17-bit prime, an odd composite inside), optionally randomised, "
                 "and given to CLSignature.Verify; the harness decides validity itself (interval, primality, normalised block equality). "
-                "Plus SignMessageBlock + Randomize + Verify over random blocks of every length up to the number of bases. Non-trivial = distinct forged case.")
+                "Every case is judged twice: in a fresh CLSignature object and in an object that held a genuine signature, was verified (accepted) and then "
+                "overwritten in place field by field (big integers keep their identity) - the verdict must be a function of the content, not of the object's history. "
+                "Plus SignMessageBlock + Randomize + Verify over random blocks of every length up to the number of bases. "
+                "Plus CLSign.tla: the ISSUER under every scripted random stream (vTilde chunk all zeros / all ones / other; up to 2 (quick) or 3 (thorough) candidate "
+                "chunks fixing the top three bits of the prime offset, all-zero and all-one chunks included): invariants SignerSound (e a prime of its interval), VInRange, "
+                "FirstPrime; the Walk = TRUE variant (step upwards from a failed candidate without re-checking the upper end) must violate SignerSound. Replay: "
+                "crypto/rand.Reader is replaced by the scripted stream during SignMessageBlock on the real keys; e must be a prime of the real interval, v in "
+                "[2^(lv-1), 2^lv), the exponent must be the first scripted candidate that is prime, the signature must verify. Non-trivial = distinct forged case / stream.")
     chk.assumptions = ["[M] vs [H(M)] and trailing-zero blocks are the same block (inherent to the scheme; the spec treats them as equal)",
                        "generic group: the equation holds for no other representation (strong RSA not attacked)", "1024-bit fixed keys"]
     r = vplib.tlc_mc("CLSig", "CLSig.mc.quick.cfg", timeout=900)
@@ -32,6 +39,24 @@ def run(chk):
     chk.add_replay(res, "forged_signatures")
     res = vplib.vh("cl", ["honest", "--tier", T, "--seed", str(chk.seed)], timeout=1200)
     chk.add_replay(res, "issuer_signatures")
+    # the issuer under every scripted random stream (CLSign.tla)
+    r = vplib.tlc_mc("CLSign", "CLSign.mc.cfg", timeout=300)
+    chk.add_tlc(r, "CLSign", "CLSign.mc.cfg", "SignerSound, VInRange, FirstPrime over every stream of <= 3 candidate chunks")
+    r = vplib.tlc("CLSign", "CLSign.walk.cfg", timeout=300, allow_fail=True)
+    if "SignerSound" not in r.invariant_violated:
+        raise vplib.Machinery("CLSign: the walking variant does not violate SignerSound (vacuity)")
+    gen = "CLSign.gen.%s.cfg" % T
+    g = vplib.tlc_mc("CLSignGen", gen, workers=1, timeout=300)
+    scripts = sorted(set(g.tagged_raw_json("S")))
+    chk.add_tlc(g, "CLSignGen", gen, "%d scripted random streams" % len(scripts))
+    if len(scripts) < 100:
+        raise vplib.Machinery("only %d scripts" % len(scripts))
+    sp = os.path.join(vplib.sub("c05"), "scripts.ndjson")
+    open(sp, "w").write("\n".join(scripts) + "\n")
+    res = vplib.vh("cl", ["streams", "--in", sp, "--tier", T, "--seed", str(chk.seed)], timeout=1800)
+    if not res.get("counts", {}).get("scripted-prime=true") or not res.get("counts", {}).get("scripted-prime=false"):
+        raise vplib.Machinery("scripted streams are vacuous: %s" % res.get("counts"))
+    chk.add_replay(res, "issuer_under_scripted_randomness")
     chk.exhaustive = True
 
 def replay(chk, path):
